@@ -7,6 +7,7 @@ package absnfs
 
 import (
 	"io"
+	"math"
 	"io/fs"
 	"os"
 	"path"
@@ -667,6 +668,9 @@ func (h *vpFile) WriteAt(b []byte, off int64) (int, error) {
 	n := h.node
 	if len(b) == 0 {
 		return 0, nil // a zero-length pwrite never extends the file
+	}
+	if off > math.MaxInt64-int64(len(b)) {
+		return 0, vpErr("writeat", h.path, syscall.EFBIG) // the end offset does not fit off_t
 	}
 	end := off + int64(len(b))
 	if n.hasData && end > 32 {
